@@ -115,22 +115,22 @@ Section WithSig.
     match o with
     | OGetAttr n =>
         (sp,
-         match find_param sg n with
-         | Some p =>
-             match pk p with
-             | PosOnly | VarPos => OErr EAttribute
-             | _ =>
-                 let cur := match slot_of n with
-                            | Some j => match nth_error (sp_prefix sp) j with Some o => o | None => None end
-                            | None => ndget (sp_named sp) n
-                            end in
-                 match cur with
-                 | Some v => OVal v
-                 | None => if pfactory p then OErr EValue
-                           else match pdefault p with Some d => OVal d | None => OErr EAttribute end
+         let cur := match slot_of n with
+                    | Some j => match nth_error (sp_prefix sp) j with Some o => o | None => None end
+                    | None => ndget (sp_named sp) n
+                    end in
+         match cur with
+         | Some v => OVal v
+         | None =>
+             match find_param sg n with
+             | Some p =>
+                 match pk p with
+                 | PosOnly | VarPos => OErr EAttribute
+                 | _ => if pfactory p then OErr EValue
+                        else match pdefault p with Some d => OVal d | None => OErr EAttribute end
                  end
+             | None => OErr EAttribute
              end
-         | None => match ndget (sp_named sp) n with Some v => OVal v | None => OErr EAttribute end
          end)
     | OSetAttr n v =>
         match validate_param_name sg n with
@@ -234,11 +234,13 @@ Section WithSig.
            (* contiguous: every slot between n0 and i is present *)
            forallb (fun j => smem st (kpos j)) (nat_seq n0 (Z.to_nat i - n0)))
     | KName n =>
+        (* a stored name is a nameable parameter, or (only with **kwargs) any other name --
+           including one that coincides with a positional-only / variadic parameter, which the
+           constructor accepts: f(1, a=2) for def f(a, /, **kw) *)
         match find_param sg n with
         | Some p => match pk p with
                     | PosOrKw | KwOnly => true
-                    | VarKw => has_var_kw sg
-                    | _ => false
+                    | _ => has_var_kw sg
                     end
         | None => has_var_kw sg
         end
